@@ -663,6 +663,10 @@ static decoder_t *make_decoder(char *kv)
         char *eq = strchr(tok, '=');
         if (!eq) continue;
         *eq = 0;
+        {
+            char *q;
+            for (q = eq + 1; *q; q++) if (*q == '~') *q = ' ';      /* '~' stands for a blank inside a value */
+        }
         if (config_set_str(c, tok, eq + 1) == NULL) printf("E config %s\n", tok);
     }
     return decoder_init(c);
